@@ -11,26 +11,26 @@ CONSTANTS
   Savers = {"p"}
   MaxSaves = 0
   MaxCrash = 0
-  MaxAcks = 1
+  MaxAcks = 0
   MaxGen = 4
-  MaxNotify = 1
-  MaxEnds = 2
+  MaxNotify = 2
+  MaxEnds = 0
   MaxFail = 0
   AutoReset = "earliest"
   Finite = FALSE
-  AutoCkpt = TRUE
+  AutoCkpt = FALSE
   Infos <- Infos2
   Info0 <- Info11
   EndCauses = {"socket", "statechanged", "ok"}
   Hold = FALSE
-  AllowClose = TRUE
+  AllowClose = FALSE
   Rollbacks = FALSE
   FailSaves = FALSE
   Focus = FALSE
   Record = FALSE
   ReadOnly = FALSE
   AckSplit = FALSE
-  HoldCb = FALSE
+  HoldCb = TRUE
   RM = FALSE
   Slots = 1
   RmUuids = {1, 2}
